@@ -54,7 +54,8 @@ def run(tier, seed):
             continue
         if not node.children:
             continue
-        x = distgen.point(rnd, node, interior=rnd.random() < 0.7)
+        far = rnd.random() < 0.15
+        x = distgen.point(rnd, node, interior=rnd.random() < 0.7, far=far)
         o = node.obj
         with np.errstate(all="ignore"), quiet():
             m = float(o.misfit(x.copy()))
@@ -63,6 +64,8 @@ def run(tier, seed):
         st.case(stim, nontrivial=(len(node.children) >= 2 or node.depth() >= 3),
                 sample={"wrapper": node.kind, "parts": [c.kind for c in node.children]} if len(st.samples) < 3 else None)
         st.count(f"wrapper={node.kind}")
+        if far:
+            st.count("far evaluation point")
         problems = []
         lb, ub = bounds_of(o)
         with np.errstate(all="ignore"), quiet():
@@ -98,14 +101,18 @@ def run(tier, seed):
                 if math.isfinite(m) and not common.vclose(g, np.vstack(pg), 1e-9, 1e-12):
                     problems.append("gradient is not the stacked block gradients")
             elif node.kind == "mixture":
+                from scipy.special import logsumexp
+
                 w = np.array(node.desc["weights"])
                 pm = np.array([float(c.obj.misfit(x.copy())) for c in node.children])
-                expect_m = -math.log(float(np.sum(w * np.exp(-pm)))) if np.all(np.isfinite(pm)) else None
+                # -log sum_i w_i exp(-misfit_i), evaluated without underflow (far from every component each exp(-misfit_i) is 0 in floating point)
+                expect_m = -float(logsumexp(np.log(w) - pm)) if np.all(np.isfinite(pm)) else None
                 if expect_m is not None and not common.close(m, expect_m, 1e-9, 1e-12):
                     problems.append(f"misfit {m!r} is not -log sum w_i exp(-misfit_i) = {expect_m!r}")
                 if expect_m is not None:
                     pg = [np.array(c.obj.gradient(x.copy()), dtype=float) for c in node.children]
-                    p = w * np.exp(-pm)
+                    la = np.log(w) - pm
+                    p = np.exp(la - np.max(la))
                     eg = sum(pi * gi for pi, gi in zip(p, pg)) / p.sum()
                     if not common.vclose(g, eg, 1e-8, 1e-11):
                         problems.append("gradient is not the responsibility-weighted mean of the component gradients")
